@@ -12,7 +12,7 @@ use crate::rng::Rng;
 pub const RULE: &str = "case = one random operation history (new / with_capacity / from_rows / resize up, down, to 0 / reserve / fill / row write / cell write via MatrixCoordinates / clone + independence / == against a rebuilt matrix / iter, rev, iter_mut, IntoIterator) on DenseMatrix<T, C> for T in {u8,u32,f32,i64} x C in {1,5,7,16,21,32,43}, checked after EVERY operation against a Vec<Vec<T>> model: rows(), columns(), every cell, surviving rows unchanged, new rows default, iteration order and length in both directions, every row pointer 32-byte aligned, stride >= C and stride*size_of::<T>() a multiple of 32. Non-trivial = history with at least one resize and one write; distinct = distinct (type, C, op sequence).";
 
 pub const REQUIRED: &[&str] = &[
-    "op.new", "op.with_capacity", "op.with_capacity.below_rows", "op.from_rows", "op.resize_up", "op.resize_down", "op.resize_zero", "op.reserve",
+    "op.new", "op.with_capacity", "op.with_capacity.below_rows", "check.self_equality", "op.from_rows", "op.resize_up", "op.resize_down", "op.resize_zero", "op.reserve",
     "op.fill", "op.row_write", "op.cell_write", "op.clone", "op.clone_from", "op.eq", "op.iter", "op.iter_rev", "op.iter_mut",
     "op.into_iter", "type.u8", "type.u32", "type.f32", "type.i64", "cols.1", "cols.5", "cols.7", "cols.16", "cols.21",
     "cols.32", "cols.43", "class.padded_stride",
@@ -21,6 +21,10 @@ pub const REQUIRED: &[&str] = &[
 pub trait Elem: MatrixElement + PartialEq + Debug + Send + 'static {
     fn from_u(x: u64) -> Self;
     fn name() -> &'static str;
+    /// a value that is not equal to itself, if the type has one
+    fn unequal_to_itself() -> Option<Self> {
+        None
+    }
 }
 impl Elem for u8 {
     fn from_u(x: u64) -> Self {
@@ -39,6 +43,9 @@ impl Elem for u32 {
     }
 }
 impl Elem for f32 {
+    fn unequal_to_itself() -> Option<Self> {
+        Some(f32::NAN)
+    }
     fn from_u(x: u64) -> Self {
         ((x % 100_003) as f32) * 0.25 + 0.5
     }
@@ -144,6 +151,29 @@ fn check_state<T: Elem, C: ArrayLength + PartialEq>(
         let kk = k.min(rows);
         if d.len() != kk || d.iter().enumerate().any(|(i, r)| *r != &model[kk - 1 - i][..]) {
             return Err(format!("after {}: iter().take({}).rev() does not yield the first rows in reverse order", op, k));
+        }
+    }
+    for over in [rows, rows + 1, rows + 7] {
+        // an nth() beyond the remaining rows leaves nothing behind
+        let mut it = m.iter();
+        if it.nth(over).is_some() || it.len() != 0 || it.next().is_some() || it.next_back().is_some() {
+            return Err(format!("after {}: iter().nth({}) on {} rows does not exhaust the iterator", op, over, rows));
+        }
+        let mut it = m.iter();
+        if it.nth_back(over).is_some() || it.len() != 0 || it.next().is_some() || it.next_back().is_some() {
+            return Err(format!("after {}: iter().nth_back({}) on {} rows does not exhaust the iterator", op, over, rows));
+        }
+    }
+    if rows >= 3 {
+        // a partial nth() leaves exactly the rows behind it
+        let mut it = m.iter();
+        let _ = it.nth(1);
+        if it.len() != rows - 2 || it.next() != Some(&model[2][..]) {
+            return Err(format!("after {}: iter().nth(1) does not leave rows 2.. behind", op));
+        }
+        let _ = it.nth(rows);
+        if it.len() != 0 || it.next().is_some() {
+            return Err(format!("after {}: a second, overshooting nth() does not exhaust the iterator", op));
         }
     }
     {
@@ -514,6 +544,44 @@ pub fn history<T: Elem, C: ArrayLength + PartialEq>(case: u64, rng: &mut Rng, re
                 return;
             }
             Ok(Ok(())) => {}
+        }
+    }
+    // equality depends on the logical cells only - never on which object is compared: a matrix
+    // compares equal to itself exactly when its cells do (a NaN cell is not equal to itself)
+    {
+        let res = guard(|| {
+            #[allow(clippy::eq_op)]
+            let self_eq = m == m;
+            let mut out: Vec<String> = Vec::new();
+            if self_eq != (model == model) {
+                out.push(format!("m == m is {} but the cells compare {}", self_eq, model == model));
+            }
+            if let (Some(odd), true) = (T::unequal_to_itself(), !model.is_empty()) {
+                let mut n = m.clone();
+                n[model.len() / 2][c - 1] = odd;
+                let n2 = n.clone();
+                #[allow(clippy::eq_op)]
+                let a = n == n;
+                let b = n == n2;
+                let d = n == m;
+                if a || b || d {
+                    out.push(format!("with a cell that is not equal to itself: n == n is {}, n == n.clone() is {}, n == original is {} (all three must be false)", a, b, d));
+                }
+            }
+            out
+        });
+        rep.cover("check.self_equality");
+        match res {
+            Err(p) => {
+                fail(rep, &ops, format!("panic in ==: {}", p), &format!("c19.panic:{}", panic_site(&p)));
+                return;
+            }
+            Ok(v) => {
+                if let Some(e) = v.into_iter().next() {
+                    fail(rep, &ops, e, "c19.state");
+                    return;
+                }
+            }
         }
     }
     if had_resize && had_write {
